@@ -355,6 +355,38 @@ def oracle(run, deep):
         run.count("oracle:roundtrip:" + ("ok" if not bad else "+".join(b[0] for b in bad)))
         if bad:
             report_roundtrip(run, s, bad)
+    # the documented escape table, checked directly on the implementation
+    esc_failed = set()
+
+    def expect(form, text, value):
+        o = observe(text)
+        run.count("oracle:escape:" + form)
+        if not (o[0] == "val" and o[2] == ("text", value)) and form not in esc_failed:
+            esc_failed.add(form)
+            run.fail("violation", "an escape sequence does not decode as documented (%s)" % form,
+                     {"input": lc.compress(text), "input_repr": lc.printable(text), "observed": [str(x)[:80] for x in o],
+                      "required": "the string %s" % lc.printable(value), "theorems": ["C16_escape_table"]})
+
+    for cp in code_points(run) + ASTRAL:
+        c = chr(cp)
+        q = "'" if cp % 2 else '"'
+        if cp < 256:
+            expect("\\xHH", q + "\\x%02x" % cp + q, c)
+        if cp < 512:
+            expect("\\ooo", q + "\\%03o" % cp + q, c)
+            expect("\\o..o followed by a non-octal character", q + "\\%o" % cp + "z" + q, c + "z")
+        if cp < 0x10000:
+            expect("\\uHHHH", q + "\\u%04X" % cp + "0" + q, c + "0")
+        expect("\\UHHHHHHHH", q + "a\\U%08x" % cp + q, "a" + c)
+        if cp < 0x300 or cp % 13 == 0:
+            name = unicodedata.name(c, None)
+            if name:
+                expect("\\N{name}", q + "\\N{%s}" % name + q, c)
+        if c not in "\\'\"abfnrtvxuUN01234567\n" and not (0xd800 <= cp < 0xe000):
+            expect("unknown escape keeps the backslash", q + "\\" + c + q, "\\" + c)
+    for letter, cp in zip("\\'\"abfnrtv", [92, 39, 34, 7, 8, 12, 10, 13, 9, 11]):
+        for q in "'\"":
+            expect("single-character escapes", q + "x\\" + letter + "y" + q, "x" + chr(cp) + "y")
     # integers and floats denote the Python numbers
     for _ in range(run.n(300, 5000)):
         k = rng.choice([1, 2, 5, 18, 19, 20, 100, 1000, 4000, 4300])
